@@ -407,6 +407,89 @@ impl Host {
 }
 impl Model for Host {}
 
+/// Nested-run scenario (`nestrun <outer threads> <kind> <n>`): a handler of an outer simulation builds a single-threaded
+/// simulation, runs one event through it that ends as `kind` says (clean / lose n messages to a mailbox outside /
+/// deadlock on a query to itself / send a message then panic), deals with the error, and returns.  The outer simulation
+/// has processed every message it sent, so its run must return Ok.
+#[derive(Default)]
+struct NInner {
+    out: nexosim::ports::Output<()>,
+    req: nexosim::ports::Requestor<(), ()>,
+}
+impl NInner {
+    async fn send_n(&mut self, n: usize) {
+        for _ in 0..n {
+            self.out.send(()).await;
+        }
+    }
+    async fn query(&mut self) {
+        let _ = self.req.send(()).await;
+    }
+    async fn send_then_panic(&mut self) {
+        self.out.send(()).await;
+        panic!("nested panic");
+    }
+    async fn noop(&mut self) {}
+    async fn reply(&mut self) {}
+}
+impl Model for NInner {}
+struct NOuter {
+    res: Arc<Mutex<String>>,
+}
+impl NOuter {
+    async fn run_nested(&mut self, arg: (u8, usize)) {
+        let (kind, n) = arg;
+        let mut a = NInner::default();
+        let a_box = Mailbox::new();
+        let a_addr = a_box.address();
+        let b_box: Mailbox<NInner> = Mailbox::new();
+        let orphan: Mailbox<NInner> = Mailbox::new();
+        match kind {
+            1 => a.out.connect(NInner::noop, &orphan),
+            _ => a.out.connect(NInner::noop, &b_box),
+        };
+        a.req.connect(NInner::reply, &a_addr);
+        let r = match SimInit::with_num_threads(1).add_model(a, a_box, "a").add_model(NInner::default(), b_box, "b").init(MonotonicTime::EPOCH) {
+            Ok((mut sim, _s)) => {
+                let r = match kind {
+                    0 | 1 => sim.process_event(NInner::send_n, n, &a_addr),
+                    2 => sim.process_event(NInner::query, (), &a_addr),
+                    _ => sim.process_event(NInner::send_then_panic, (), &a_addr),
+                };
+                match r {
+                    Ok(()) => "ok".to_string(),
+                    Err(e) => exec_err(&e),
+                }
+            }
+            Err(e) => format!("init-{}", exec_err(&e)),
+        };
+        *self.res.lock().unwrap() = r;
+    }
+}
+impl Model for NOuter {}
+
+fn nestrun(threads: usize, kind: u8, n: usize) -> String {
+    let res = Arc::new(Mutex::new(String::from("-")));
+    let mb = Mailbox::new();
+    let addr = mb.address();
+    let mut inner = String::from("-");
+    let outer = match SimInit::with_num_threads(threads).add_model(NOuter { res: res.clone() }, mb, "outer").init(MonotonicTime::EPOCH) {
+        Ok((mut sim, _s)) => {
+            let r1 = sim.process_event(NOuter::run_nested, (kind, n), &addr);
+            inner = res.lock().unwrap().clone();
+            // a second, ordinary event: the outer simulation must still be usable
+            let r2 = sim.process_event(NOuter::run_nested, (0, 1), &addr);
+            match (r1, r2) {
+                (Ok(()), Ok(())) => "ok".to_string(),
+                (Err(e), _) => exec_err(&e),
+                (_, Err(e)) => format!("then-{}", exec_err(&e)),
+            }
+        }
+        Err(e) => format!("init-{}", exec_err(&e)),
+    };
+    format!("nestrun inner={inner} outer={outer}")
+}
+
 fn nested(k: usize, j: usize) -> String {
     let outer_drops = Arc::new(Mutex::new(vec![0usize; k]));
     let inner_drops = Arc::new(Mutex::new(Vec::new()));
@@ -1042,6 +1125,22 @@ impl Engine for Net {
                     out.tags.push("nested".into());
                     r
                 }
+                ["nestrun", th, kind, n] => {
+                    let (th, n): (usize, usize) = (th.parse().unwrap(), n.parse().unwrap());
+                    let k: u8 = match *kind {
+                        "clean" => 0,
+                        "lose" => 1,
+                        "deadlock" => 2,
+                        _ => 3,
+                    };
+                    let r = nestrun(th, k, n);
+                    if !r.ends_with("outer=ok") {
+                        out.monitor.push(("C06".into(), format!("a handler of a simulation on {th} thread(s) ran a nested single-threaded simulation that ended `{kind}` and dealt with it; every message of the outer simulation was processed, but its run reported: {r}")));
+                    }
+                    out.nontrivial = true;
+                    out.tags.push(format!("nestrun.{kind}"));
+                    r
+                }
                 ["later", j, p, secs] if bench.is_some() => {
                     // an action that is still pending in the scheduler queue when the simulation is dropped
                     let b = bench.as_mut().unwrap();
@@ -1182,6 +1281,62 @@ impl Engine for Net {
                 }
             }
             all_recs.extend(recs);
+            // C12: when a run has returned (whatever it reports), no handler is suspended inside a send to a mailbox that
+            // has a free slot.  Decidable from the trace for ports with a single connection: the handler's last record is
+            // the start of that send, and the hook gives the mailbox's occupancy (pushes − pops).
+            if matches!(w[0], "init" | "ev" | "qr" | "sev") && (r.starts_with("ok") || r.starts_with("deadlock") || r.starts_with("message-loss")) && bench.is_some() {
+                let mut open: HashMap<(usize, u128), Option<usize>> = HashMap::new();
+                for x in &all_recs {
+                    match x {
+                        Rec::Handle(m, p) => {
+                            open.insert((*m, *p), None);
+                        }
+                        Rec::Init(m) => {
+                            open.insert((*m, 9000 + 10 * *m as u128), None);
+                        }
+                        Rec::Sent(m, p, k, _, _) => {
+                            if let Some(e) = open.get_mut(&(*m, *p)) {
+                                *e = Some(*k);
+                            }
+                        }
+                        Rec::Done(m, p) => {
+                            open.remove(&(*m, *p));
+                        }
+                        _ => {}
+                    }
+                }
+                let ids = CHAN_IDS.lock().unwrap().clone();
+                let ops = nexosim::verif_hooks::channel_ops();
+                for ((m, p), k) in &open {
+                    let k = match k {
+                        Some(k) => *k,
+                        None => continue,
+                    };
+                    let script = if *p == 9000 + 10 * *m as u128 { &specs[*m].initops } else { &specs[*m].react };
+                    let op = match script.get(k) {
+                        Some(op) if !op.query => op,
+                        _ => continue,
+                    };
+                    let conns = match specs[*m].ports.get(&op.port) {
+                        Some(c) if c.len() == 1 && !c[0].to_sink && !c[0].query => c,
+                        _ => continue,
+                    };
+                    let dst = conns[0].dst;
+                    if specs.get(dst).map(|d| d.dead).unwrap_or(true) {
+                        continue;
+                    }
+                    if let Some((pu, po)) = ids.get(dst).and_then(|id| ops.get(id)) {
+                        let occ = pu.saturating_sub(*po) as usize;
+                        if occ < specs[dst].cap.max(1) {
+                            out.monitor.push((
+                                "C12".into(),
+                                format!("`{l}` returned `{}` while the handler of model {m} for message {p} is suspended in a send to model {dst}, whose mailbox holds {occ} of {} messages: a sender waiting for space was not resumed although space is available", r.split(" | ").next().unwrap_or(""), specs[dst].cap.max(1)),
+                            ));
+                            break;
+                        }
+                    }
+                }
+            }
             out.resp.push(r);
         }
         // C16: every simulation model initialised exactly once, before it handled anything; names are qualified
@@ -1297,6 +1452,10 @@ fn gen_case(rng: &mut Rng, _idx: usize, tier: Tier, focus: &str) -> Case {
     if (focus == "C19" && rng.chance(1, 10)) || rng.chance(1, 60) {
         return Case { lines: vec!["case net exec st".into(), format!("nested {} {}", rng.below(5), rng.below(5))] };
     }
+    if ((focus == "C06" || focus == "C11") && rng.chance(1, 12)) || rng.chance(1, 90) {
+        let kind = *rng.pick(&["clean", "lose", "deadlock", "panic"]);
+        return Case { lines: vec!["case net exec st".into(), format!("nestrun {} {kind} {}", rng.pick(&[1u64, 1, 2, 4]), rng.range(1, 3))] };
+    }
     if (focus == "C04" && rng.chance(1, 12)) || rng.chance(1, 80) {
         // many models / many simultaneous events: more tasks than one injector bucket or one local queue holds
         let n = *rng.pick(&[1u64, 7, 100, 127, 128, 129, 130, 200, 257, 300, 520, 700]);
@@ -1396,6 +1555,30 @@ fn gen_case(rng: &mut Rng, _idx: usize, tier: Tier, focus: &str) -> Case {
         if rng.chance(1, 2) {
             l.push(format!("ev 3 {}", 50 + rng.below(9)));
         }
+        return Case { lines: l };
+    }
+    if ((focus == "C12" || focus == "C04" || focus == "C16") && rng.chance(1, 10)) || rng.chance(1, 80) {
+        // a producer blocked on the small mailbox of a consumer whose handler, for the first message, queries the producer:
+        // the producer must have been woken (and have finished its sends) for the query to be answered
+        const BIG: u64 = 999_999_999_999_999_989;
+        let exec = match rng.below(4) {
+            0 | 1 => "st".to_string(),
+            2 => "mt2".into(),
+            _ => "mt4".into(),
+        };
+        let cap = rng.range(1, 3);
+        let root = rng.range(1, 9);
+        let mut l = vec![format!("case net exec {exec}")];
+        l.push(format!("model 0 cap {} sim 1 parent - name a", rng.range(2, 4)));
+        l.push(format!("model 1 cap {cap} sim 1 parent - name b"));
+        l.push("conn 0 0 ev box 1 add 0 fmod 0 fres 0".into());
+        l.push("conn 1 0 q box 0 add 0 fmod 0 fres 0".into());
+        for _ in 0..(cap + rng.range(1, 2)) {
+            l.push(format!("react 0 ev 0 cmod {BIG} cres {root}"));
+        }
+        l.push(format!("react 1 q 0 cmod {BIG} cres {}", root * 100 + 1));
+        l.push("init".into());
+        l.push(format!("ev 0 {root}"));
         return Case { lines: l };
     }
     let exec = match if focus == "C19" { 1 + rng.below(4) } else { rng.below(5) } {
